@@ -712,7 +712,11 @@ func (r *consistentHashRing) set(members []string) {
 	for _, member := range members {
 		for i := range r.virtualNodes {
 			h := r.hashVNode(member, i)
-			r.ring[h] = member
+			// on a hash collision the smallest member owns the point, whatever the
+			// order of members (the router passes them in map iteration order)
+			if owner, ok := r.ring[h]; !ok || member < owner {
+				r.ring[h] = member
+			}
 			r.keys = append(r.keys, h)
 		}
 	}
